@@ -20,6 +20,7 @@ for m in mutants/$pat.diff; do
   if ! (cd "$scratch/repo" && patch -p1 -s < "$VD/$m"); then report+="$name: PATCH-FAILED"$'\n'; fail=$((fail+1)); continue; fi
   if ! (cd "$scratch/repo" && go build ./... && go test -vet=off -count=1 ./... >"$scratch/base.log" 2>&1); then
     report+="$name: INVALID-MUTANT (baseline tests fail or no build): $(grep -m2 -E "^(---|#|.*\.go:[0-9]+)" "$scratch/base.log" | tr "\n" " " | cut -c1-200)"$'\n'; fail=$((fail+1)); continue; fi
+  rm -rf .cache/selftest-replay
   out=$(./check "$id" "$tier" --repo "$scratch/repo" 2>&1); code=$?
   if [ $code -eq 1 ] && grep -q "^VIOLATION property=$id" <<<"$out"; then
     pass=$((pass+1)); report+="$name: caught ($(grep -m1 -A1 '^VIOLATION' <<<"$out" | tail -1 | sed 's/^ *//' | cut -c1-110))"$'\n'
